@@ -106,6 +106,26 @@ def c12_extra(tier, rng, stats):
         # a concrete input on which the two backends differ IS a failing input for C12
         out['violations'].append(('__direct__', b))
     out['disagreements'] += bad
+    # (3) the public API with the transliterated modules importable (compiled branches of the API
+    #     layer: single-pass distances, coincidence_value, spike_train_order_cython, …) against the model
+    api_cases = list(gens.api_cases(rng, S(tier, 120, 1500), with_idx=True, with_iv=True)) + \
+        list(gens.filter_cases(rng, S(tier, 60, 600)))
+    with pyxrun.pyx_backend():
+        r3 = corr.run_cases('api-compiled-config', api_cases, stats, max_dis=200)
+    dis3 = []
+    for d in r3['disagreements']:
+        tf = d.fields[2:]
+        on_end = sum(1 for t in tf if len(t) == 3 and t[2] == t[1])
+        empties = sum(1 for t in tf if len(t) == 2)
+        if on_end >= 2 and 'nan' in str(d.real).lower():
+            known['F12'] += 1
+        elif empties >= 2 and d.op in ('order_multi', 'order_bi'):
+            known['F10'] += 1
+        else:
+            dis3.append(d.as_dict())
+    out['suites'].append({'suite': 'api-compiled-config', 'evaluated': r3['evaluated'], 'disagreements': len(dis3), 'skipped': r3['skipped']})
+    out['evaluated'] += r3['evaluated']; out['nontrivial'] += r3['distinct_nontrivial']
+    out['disagreements'] += dis3
     out['notes'].append('known-class hits (excluded from the comparison): %r' % known)
     return out
 
